@@ -22,6 +22,11 @@ pub fn canon_tree(t: &Node) -> Node {
     let mut x = t.clone();
     match x.k.as_str() {
         "num" => x.a = crate::decode::num_value(&x.a),
+        "type" if x.c.is_empty() && !x.a.is_empty() => {
+            // generated one-word type
+            x.c = vec![crate::project::n("tname", x.a.clone(), vec![])];
+            x.a = String::new();
+        }
         "table" if x.a.is_empty() && x.c.len() > 1 => x.a = ",".repeat(x.c.len() - 1),
         "raw" => {
             // raw literal token: classify by first char
